@@ -172,6 +172,9 @@ func sampleElem(c vals.V) vals.V {
 	if e, ok := firstNonNil(c); ok {
 		return e
 	}
+	if _, _, ok := wideKind(c.K); ok {
+		return vals.V{K: "wnum", S: "1"}
+	}
 	switch c.K {
 	case "[]int", "[3]int":
 		return vals.Int(1)
@@ -494,12 +497,20 @@ func probeRich(id string, sc sscope, d Data, names []string, salt int, choose fu
 var letters = []string{"a", "b", "Österreich", "d", "日本", "q", "İstanbul", "😀"}
 
 // collKinds are the sequence kinds of the property's quantifier ("[]any" in three flavours).
-var collKinds = []string{"[]any:str", "[]any:int", "[]any:map", "[]string", "[]int", "[]float64", "[]bool", "[3]int", "[]map", "[]rec", "[]*rec", "[]emb", "[]pemb", "[]*emb", "[]qty", "[2]ratio", "[]dur", "[]flag", "[]name", "[]*task", "[2]*task", "[]task", "[]any:*task"}
+var collKinds = []string{"[]any:str", "[]any:int", "[]any:map", "[]string", "[]int", "[]float64", "[]bool", "[3]int", "[]map", "[]rec", "[]*rec", "[]emb", "[]pemb", "[]*emb", "[]qty", "[2]ratio", "[]dur", "[]flag", "[]name", "[]*task", "[2]*task", "[]task", "[]any:*task", "[]uint64", "[2]uint", "[]int64", "[]int8"}
+
+// randKinds: the kinds the drawn cases use: collKinds plus the remaining sized integer element types.
+var randKinds = append(append([]string{}, collKinds...), "[]uint", "[2]uint64", "[]int32", "[]uint32", "[]int16", "[]uint16", "[]uint8", "[2]int64")
 
 // fixedColl builds a collection of kind k with n distinct items (deterministic).
 func fixedColl(k string, n int) vals.V {
 	var l []vals.V
 	for i := 0; i < n; i++ {
+		if e, _, ok := wideKind(k); ok {
+			// zero first (one item = all zero), then the extremes of the width
+			l = append(l, vals.V{K: "wnum", S: wideVals[e][i%len(wideVals[e])]})
+			continue
+		}
 		switch k {
 		case "[]any:str", "[]string":
 			l = append(l, vals.Str(letters[i]))
@@ -600,10 +611,11 @@ func core1(full bool, yield func(Case) bool) {
 		if k == "[3]int" {
 			max = 3
 		}
-		if k == "[2]ratio" || k == "[2]*task" {
+		if strings.HasPrefix(k, "[2]") {
 			max = 2
 		}
-		named := k == "[]qty" || k == "[2]ratio" || k == "[]dur" || k == "[]flag" || k == "[]name"
+		_, _, wide := wideKind(k)
+		named := k == "[]qty" || k == "[2]ratio" || k == "[]dur" || k == "[]flag" || k == "[]name" || wide
 		for n := 0; n <= max; n++ {
 			if !full && strings.HasSuffix(k, "emb") && n != 0 && n != 2 {
 				continue // quick tier: the embedding struct kinds with 0 and 2 items only
@@ -1106,6 +1118,9 @@ func (g *gen) scalar(label string) vals.V {
 }
 
 func (g *gen) elem(k string, depth int, label string) vals.V {
+	if e, _, ok := wideKind(k); ok {
+		return vals.V{K: "wnum", S: g.pick(wideVals[e], label)}
+	}
 	switch k {
 	case "[]any:str", "[]string":
 		return vals.Str(g.pick(letters, label))
@@ -1168,7 +1183,7 @@ func (g *gen) coll(k string, depth int, label string) vals.V {
 	if k == "[3]int" {
 		max = 3
 	}
-	if k == "[2]ratio" || k == "[2]*task" {
+	if strings.HasPrefix(k, "[2]") {
 		max = 2
 	}
 	if depth > 0 {
@@ -1188,12 +1203,12 @@ func (g *gen) coll(k string, depth int, label string) vals.V {
 
 // anyColl draws a collection of any kind, including nil slice / nil value.
 func (g *gen) anyColl(label string) vals.V {
-	switch r := g.int(0, len(collKinds)+2, label+"kind"); {
-	case r < len(collKinds):
-		return g.coll(collKinds[r], 0, label)
-	case r == len(collKinds):
+	switch r := g.int(0, len(randKinds)+2, label+"kind"); {
+	case r < len(randKinds):
+		return g.coll(randKinds[r], 0, label)
+	case r == len(randKinds):
 		return vals.V{K: "nil[]any"}
-	case r == len(collKinds)+1:
+	case r == len(randKinds)+1:
 		return vals.Nil()
 	default:
 		return g.coll("[]any:map", 0, label)
